@@ -20,3 +20,41 @@ package opentype
 //@   modifies nothing
 //@   loop 1 invariant [i-range] 0 <= i && i <= n && n == len(table)/4
 //@   loop 1 invariant [partial-sum] sum == cksum(table, 0, i)
+
+// ---------------------------------------------------------------------------------------------
+// Property C19: "header search fields ... are correct". The sfnt header of a file with n tables holds
+// entrySelector = floor(log2 n), searchRange = 16 * 2^entrySelector, rangeShift = 16*n - searchRange.
+// The code computes them in floating point; the three math functions are trusted with the contracts below
+// (Log2 is monotone and exact on powers of two; Floor; Pow(2, k) is exact for integral 0 <= k <= 62): these are
+// assumptions about the Go standard library, listed in the evidence.
+//@ trusted std:math.Log2
+//@   params x
+//@   ensures [monotone-exact-on-powers] forallT(k, 0, 63, pow2(k), (x >= float64(pow2(k))) == (result >= float64(k)))
+//@   ensures [range12] implies(1 <= x && x < 4096, 0 <= result && result < 12)
+//@   modifies nothing
+//@ trusted std:math.Floor
+//@   params x
+//@   ensures [floor] result <= x && x < result+1 && result == float64(int(result))
+//@   modifies nothing
+//@ trusted std:math.Pow
+//@   params x, y
+//@   ensures [pow2] implies(x == 2 && y == float64(int(y)) && 0 <= y && y <= 62, result == float64(pow2(int(y))))
+//@   modifies nothing
+//
+//@ spec be16(b []byte, i int) int = int(b[i])*256 + int(b[i+1])
+//@ spec be32(b []byte, i int) int = be16(b, i)*65536 + be16(b, i+2)
+//
+//@ func writeTTFHeader C19
+//@   mode int
+//@   requires [n] 1 <= nTables && nTables < 4096
+//@   requires [room] len(out) >= 12
+//@   ensures [version] be32(out, 0) == int(TrueType)
+//@   ensures [numTables] be16(out, 4) == nTables
+//@   ensures [entrySelector] pow2(be16(out, 8)) <= nTables && nTables < pow2(be16(out, 8)+1)
+//@   ensures [searchRange] be16(out, 6) == 16*pow2(be16(out, 8))
+//@   ensures [rangeShift] be16(out, 10) == 16*nTables - be16(out, 6)
+//@   modifies out[0:12]
+//@   assert_at call PutUint32#1 : [log2-integral] 0 <= log2 && log2 < 12 && log2 == float64(int(log2))
+//@   assert_at call PutUint32#1 : [log2-brackets] pow2(int(log2)) <= nTables && nTables < pow2(int(log2)+1)
+//@   assert_at call PutUint32#1 : [search-range] searchRange == float64(16*pow2(int(log2))) && 16 <= searchRange && searchRange <= 16*float64(nTables)
+//@   assert_at call PutUint32#1 : [range-shift] rangeShift == 16*nTables - 16*pow2(int(log2)) && 0 <= rangeShift && rangeShift < 65536
